@@ -218,7 +218,9 @@ pub fn run(ctx: &mut Ctx) {
     ctx.assume("reference implements DESIGN.md appendix B; a dict tag named _kind and a grid meta tag named ver are outside the model of this encoding");
     let depth = ctx.tier.pick(3, 4) as u32;
     let before = ctx.violations.len();
-    let sp = move || bx((top_value(GenCfg::wf(depth)), choices()).prop_map(|(v, choices)| Spelled { v, choices }));
+    // one case in thirty is a non-finite Number with a unit (Hayson can spell it, Zinc cannot, so `wf` leaves it out)
+    let val = move || prop_oneof![29 => top_value(GenCfg::wf(depth)), 1 => crate::gen::value::nonfinite_with_unit()].boxed();
+    let sp = move || bx((val(), choices()).prop_map(|(v, choices)| Spelled { v, choices }));
     ctx.run_sub::<Spelled>("ref-selftest", ctx.tier.pick(16_000, 160_000), &sp, &selftest_case);
     if ctx.violations.len() > before {
         let v = ctx.violations.split_off(before);
@@ -227,7 +229,7 @@ pub fn run(ctx: &mut Ctx) {
         }
         return;
     }
-    ctx.run_sub::<RVal>("hayson-A", ctx.tier.pick(48_000, 960_000), &move || top_value(GenCfg::wf(depth)), &check_a);
+    ctx.run_sub::<RVal>("hayson-A", ctx.tier.pick(48_000, 960_000), &val, &check_a);
     ctx.run_sub::<Spelled>("hayson-B", ctx.tier.pick(48_000, 960_000), &sp, &check_b);
 }
 
